@@ -257,11 +257,15 @@ func (m *Message) Nacked() <-chan struct{} {
 }
 
 // Clone returns a cloned message with the same content but separate ack and
-// nack handling.
+// nack handling. The filtered flag is part of the content: a clone of a
+// filtered message (FanoutNode clones a message for every destination) has to
+// stay filtered, otherwise the destination nodes would write the filtered
+// record to their connectors.
 func (m *Message) Clone() *Message {
 	return &Message{
-		Ctx:    m.Ctx,
-		Record: m.Record.Clone(),
+		Ctx:      m.Ctx,
+		Record:   m.Record.Clone(),
+		filtered: m.filtered,
 	}
 }
 
